@@ -777,6 +777,69 @@ def q_retrier_run(o, tier):
             'functions': ['watchtower_plugin::retrier::Retrier::run']}
 
 
+def q_responder_block_order(o, tier):
+    """C04.P5 (composition, call level): in Responder::filtered_block_connected the refunding deletion
+    `delete_appointments(_, true)` is reachable only after check_confirmations and before the reorg/rebroadcast handling, the
+    non-refunding `delete_appointments(_, false)` only after handle_reorged_txs or rebroadcast_stale_txs; these are the only
+    two deletion sites; every completed path updates the carrier height and the tx index first and clears the carrier's
+    receipts last."""
+    funcs, idx, t_mir, err = load_mir('teos')
+    if funcs is None:
+        return {'verdict': 'inconclusive', 'reason': 'MIR dump failed'}
+    name = [n for n in funcs if re.match(r'^responder::<impl at .*?>::filtered_block_connected$', n)]
+    if len(name) != 1:
+        return {'verdict': 'inconclusive', 'reason': 'entry not found'}
+    f = funcs[name[0]]
+    dels = [b for b in f.blocks.values() if b.term['kind'] == 'call' and re.search(r'Gatekeeper::delete_appointments(_refund|_norefund|_dynamic)?$', b.term['callee'])]
+    kinds = sorted(b.term['args'][-1] for b in dels)
+    # record the refund flag in the call name so that paths can tell the two sites apart
+    for b in dels:
+        if not b.term['callee'].endswith('delete_appointments'):
+            continue
+        b.term = dict(b.term)
+        b.term['callee'] = b.term['callee'] + ('_refund' if b.term['args'][-1] == 'const true' else '_norefund' if b.term['args'][-1] == 'const false' else '_dynamic')
+    rows = enum_paths(f, 'bb0')
+    if rows is None:
+        return {'verdict': 'inconclusive', 'reason': 'path explosion'}
+
+    def calls(r):
+        return [e[1] for e in r if e[0] == 'call']
+
+    def pos(c, n):
+        return c.index(n) if n in c else None
+    CC, HR, RB = 'Responder::check_confirmations', 'Responder::handle_reorged_txs', 'Responder::rebroadcast_stale_txs'
+    DR, DN = 'Gatekeeper::delete_appointments_refund', 'Gatekeeper::delete_appointments_norefund'
+    UH, UP, CR = 'Carrier::update_height', 'BlockHash>::update', 'Carrier::clear_receipts'
+
+    def bad(r):
+        c = calls(r)
+        if any(x.endswith('delete_appointments_dynamic') for x in c):
+            return True
+        if DR in c and not (CC in c and c.index(CC) < c.index(DR) and (RB not in c or c.index(DR) < c.index(RB))):
+            return True
+        if DN in c and not ((HR in c and c.index(HR) < c.index(DN)) or (RB in c and c.index(RB) < c.index(DN))):
+            return True
+        if c.count(DR) > 1 or c.count(DN) > 1:
+            return True
+        if not (CC in c and RB in c and UH in c and CR in c and c.index(UH) < c.index(CC) and c.index(RB) < c.index(CR)):
+            return True
+        if not any(x.endswith('::update') for x in c[:c.index(CC)]):
+            return True
+        return False
+    if kinds != ['const false', 'const true'] or not rows:
+        return {'verdict': 'fails', 'failed': [{'description': 'Responder::filtered_block_connected does not have exactly one refunding and one non-refunding deletion site (found %s)' % kinds, 'function': 'Responder::filtered_block_connected'}], 'queries': 0, 'solver_s': 0.0}
+    v, i, dt, out = _exists(rows, bad, 'order')
+    if v == 'inconclusive':
+        return {'verdict': 'inconclusive', 'reason': out[:200]}
+    failed = []
+    if v == 'sat':
+        failed.append({'description': 'block handling order broken: a deletion is reachable without the step that justifies it, or height/index/receipt bookkeeping is skipped or misplaced',
+                       'function': 'Responder::filtered_block_connected', 'schedule': [e[1] for e in rows[i] if e[0] == 'call' and ('Responder::' in e[1] or 'Gatekeeper::' in e[1] or 'Carrier::' in e[1] or e[1].endswith('::update'))]})
+    return {'verdict': 'fails' if failed else 'holds', 'failed': failed, 'queries': 1, 'solver_s': dt,
+            'witness': {'paths': len(rows), 'sample': [e[1] for e in rows[-1] if e[0] == 'call' and ('Responder::' in e[1] or 'Gatekeeper::' in e[1] or 'Carrier::' in e[1] or e[1].endswith('::update'))]},
+            'functions': ['Responder::filtered_block_connected']}
+
+
 QUERIES = {
     'lock_order': q_lock_order,
     'api_guard': q_api_guard,
@@ -787,6 +850,7 @@ QUERIES = {
     'plugin_register_verify': q_plugin_register_verify,
     'plugin_send_appointment': q_plugin_send_appointment,
     'retrier_run': q_retrier_run,
+    'responder_block_order': q_responder_block_order,
 }
 
 
